@@ -60,6 +60,7 @@ def run(chk):
         chk.ob("C14.ws/condition-filter", ok, "#if conditions are filtered with is_whitespace()" if ok else "the #if condition parser no longer filters trivia with is_whitespace()", where(cp))
     rule_adj(chk)
     rule_comment_scan(chk)
+    rule_uniform_trivia(chk)
     rule_line(chk, ip)
 
 
@@ -138,7 +139,29 @@ def rule_line(chk, ip):
         chk.ob("C14.line/other-byte", ok_other, "any other byte -> column += 1" if ok_other else "a non-newline byte no longer advances exactly the column", where(gfl))
         # the prefix scanned is contents[..source_offset]
         rng = [a for a in F.exprs(gfl["thir"], "Adt") if short(a["adt"]) == "RangeTo"]
-        chk.ob("C14.line/scans-prefix", len(rng) == 1, "counts the bytes before the location" if len(rng) == 1 else "get_file_location no longer scans contents[..offset]", where(gfl))
+        takes = [c for c in F.exprs(gfl["thir"], "Call") if short(c.get("fn") or "") == "take"]
+        okp = len(rng) + len(takes) == 1
+        chk.ob("C14.line/scans-prefix", okp, "counts the bytes before the location" if okp else "get_file_location no longer scans exactly the bytes before the offset (contents[..offset] / take(offset))", where(gfl))
+    # a location belongs to the file whose reserved range [base, base + file_size + 1) contains it: both decoders select
+    # the file with the same strict test `location < base + file_size + 1`
+    tests = {}
+    for name in ("get_file_offset_from_source_location", "get_file_location"):
+        fn = f.fn(name, "rssl_text")
+        if not fn:
+            continue
+        found = []
+        for (p_, it_, body_, node_) in F.for_loops(fn["thir"]):
+            if body_ is None:
+                continue
+            for iff in F.exprs(body_, "If"):
+                c = F.strip(iff["cond"])
+                if c.get("k") == "Binary" and c["op"] in ("Lt", "Le", "Gt", "Ge") and any(x.get("k") == "Field" and x.get("name") == "0" for x in F.walk(c["l"])):
+                    found.append(c["op"])
+        tests[name] = found
+        okt = found == ["Lt"]
+        chk.ob("C14.line/file-range/" + name, okt, "file selected by `location < end of its reserved range`" if okt else
+               "%s selects the file with %s instead of a single strict `<` against the end of the file's reserved range: a location at the first byte of the next file is attributed to the previous file (position past its end)"
+               % (name, found or "no range test"), where(fn))
     # file_size + 1 in add_file and both decoders
     n_ok = 0
     for name in ("add_file", "get_file_offset_from_source_location", "get_file_location"):
@@ -214,3 +237,41 @@ def rule_comment_scan(chk):
             chk.ob("C14.comment/%s/terminator" % name, closer in cl, "terminated by %r" % closer if closer in cl else "%s no longer looks for %r" % (name, closer), where(fn))
         toks = {a.get("variant") for a in F.exprs(fn["thir"], "Adt") if short(a["adt"]) == "Token"}
         chk.ob("C14.comment/%s/token" % name, toks == {"Comment"}, "produces Token::Comment only" if toks == {"Comment"} else "%s produces %s" % (name, sorted(toks)), where(fn))
+
+
+def rule_uniform_trivia(chk):
+    """Spaces, tabs and comments are interchangeable layout: they are told apart only where they are made (the lexer)
+    and where they are classified (Token::is_whitespace and Token's own derived impls). No other function may construct,
+    compare with or match on Token::Whitespace or Token::Comment alone - a decision that holds for a space must hold for
+    a comment in the same place. (Endline / PhysicalEndline are deliberately significant and not covered.)"""
+    f = chk.facts
+    control = 0
+    n = 0
+    for crate in f.crates:
+        for b in f.crates[crate]["bodies"]:
+            if "thir" not in b:
+                continue
+            hits = set()
+            first = None
+            for x in F.walk(b["thir"]):
+                if not isinstance(x, dict):
+                    continue
+                if (x.get("k") == "Adt" and short(x.get("adt", "")) == "Token" and x.get("variant") in ("Whitespace", "Comment")) or \
+                        (x.get("k") == "Variant" and short(x.get("adt", "")) == "Token" and x.get("variant") in ("Whitespace", "Comment")):
+                    hits.add(x["variant"])
+                    first = first or x
+            if not hits:
+                continue
+            path = b["path"]
+            home = path.startswith("rssl_preprocess::lexer::") or "rssl_text::tokens::Token" in path
+            if "is_whitespace" in path:
+                control += 1
+            if home:
+                continue
+            n += 1
+            owner = short(b.get("parent") or path)
+            chk.ob("C14.ws/uniform-trivia/%s" % owner, False,
+                   "%s singles out Token::%s instead of asking Token::is_whitespace(): a comment (or a space) in that position is treated differently from other layout, so adding trivia changes the result"
+                   % (owner, "/".join(sorted(hits))), where(b, first))
+    chk.ob("C14.ws/uniform-trivia", n == 0 and control == 1, "no function outside the lexer and Token's own impls distinguishes spaces from comments (detector control: is_whitespace matched)" if n == 0 and control == 1 else
+           ("the detector no longer matches its control Token::is_whitespace" if control != 1 else "%d function(s) single out one trivia kind" % n), "workspace")
